@@ -9,12 +9,16 @@ def cls(kind, msg):
     m = msg
     if kind == 'wrong':
         return msg
+    if kind == 'gen-fail':
+        return 'go/format rejects the source parquetgen generated'
     m = re.sub(r'T[A-Z][A-Za-z0-9]*', 'T', m)
     m = re.sub(r'\bx\d*(\.[A-Za-z0-9]+)+', 'x.F', m)
     m = re.sub(r'struct\{.*', 'struct{…}', m)
     m = re.sub(r'(write|read)[A-Z][A-Za-z0-9]*', r'\1F', m)
     m = re.sub(r'\(parquet\.go:\d+\)', '', m)
     m = re.sub(r'\b[A-Z]\b', 'F', m)
+    m = re.sub(r'\bG[A-Z]\b', 'F', m)
+    m = re.sub(r'mismatched types \w+ and', 'mismatched types T and', m)
     m = re.sub(r'variable of type [^)]*', 'variable of type …', m)
     m = re.sub(r'gen-fail: gen-fail:.*', 'gen-fail: go/format rejects the generated source', m, flags=re.S)
     return m.strip()[:120]
